@@ -472,6 +472,9 @@ func candTracking(g *Gen, t *rapid.T, spent map[string]bool) *cand {
 	}
 	var newOwner *Key
 	ttype := rapid.IntRange(0, 11).Draw(t, "trackingtype")
+	if g.OwnerChangeFocus && rapid.Bool().Draw(t, "ownerchange") {
+		ttype = 8
+	}
 	// the target of a close proposal that is still being voted on: end it
 	// through tracking first, half of the time
 	for _, cp := range k.Proposals() {
